@@ -514,10 +514,19 @@ namespace pika::detail {
     ///////////////////////////////////////////////////////////////////////////
     std::string embed_in_quotes(std::string const& s)
     {
-        char quote = (s.find_first_of('"') != std::string::npos) ? '\'' : '"';
+        // The reconstructed command line is split again with split_unix (escape character '\\',
+        // quote characters '"' and '\''): escape these characters so that every value survives the
+        // round trip unchanged.
+        std::string escaped;
+        escaped.reserve(s.size());
+        for (char c : s)
+        {
+            if (c == '\\' || c == '"' || c == '\'') escaped += '\\';
+            escaped += c;
+        }
 
-        if (s.find_first_of("\t ") != std::string::npos) return quote + s + quote;
-        return s;
+        if (escaped.find_first_of("\t ") != std::string::npos) return '"' + escaped + '"';
+        return escaped;
     }
 
     void add_as_option(std::string& command_line, std::string const& k, std::string const& v)
